@@ -399,6 +399,20 @@ func c06Files(c *Ctx) {
 				if r.IntN(10) == 0 {
 					x = nil
 				}
+				if i%5 == 4 {
+					// a line longer than the usual buffers; for SAM also in the leading header block (which File may
+					// treat by a path of its own)
+					gen := f
+					if gen == "samh" {
+						gen = "sam"
+					}
+					x = wellFormedLong(r, gen)
+					if gen == "sam" {
+						hdr := "@HD\tVN:1.6\n@PG\tID:bwa\tCL:" + string(longText(r, longSize(r), noCRLF)) + "\n@CO\t" + string(longText(r, pick(r, []int{4095, 4096, 4097, 9000}), noCRLF)) + "\n"
+						x = append([]byte(hdr), x...)
+					}
+					k.Count("files_with_long_lines", 1)
+				}
 				k.Input("format", f)
 				k.Input("input", func() string { return describeText(x) })
 				ref, _ := collect(cd.seq(bytes.NewReader(x)), len(x)+8)
